@@ -48,6 +48,16 @@ def defects(rng, line, sep):
         out.append(('leading-syllsep', s + (' ' if p == ' ' else '') + line))
     pos = rng.randint(0, len(line))
     out.append(('punctuation', line[:pos] + rng.choice('!?.,') + line[pos:]))
+    # a stray punctuation mark that also occurs inside a separator (';' of ';esyll', '<' of '<w>')
+    own = sorted({c for x in (p, s, w) if x for c in x if c in string.punctuation})
+    for _ in range(3):
+        if not own:
+            break
+        pos, c = rng.randint(0, len(line)), rng.choice(own)
+        cand = line[:pos] + (c + ' ' if p == ' ' else c) + line[pos:]
+        if reference_reject(cand, sep, True) == 'punctuation':
+            out.append(('punctuation-separator-char', cand))
+            break
     if s and p == ' ' and (' ' + s + ' ' + w) in line:
         out.append(('missing-syllsep', line.replace(' ' + s + ' ' + w, ' ' + w, 1)))
     out.append(('blank', rng.choice(['', ' ', '  '])))
